@@ -239,7 +239,7 @@ def _welford_reads(env, cfg):
             elif what == 'var':
                 env.claim(f"read_var_{tag}", eq(got * t.N, t.sum_squares), detail=f"read order {order}")
             else:
-                env.claim(f"read_std_{tag}", And(got >= 0, eq(got * got * t.N, t.sum_squares)), detail=f"read order {order}")
+                env.claim(f"read_std_{tag}", And(got >= 0, eq(got * got, t.sum_squares / t.N)), detail=f"read order {order}")
     check('before')
     guarded(env, 'update', t.update, env.real('v0'))
     check('after')
